@@ -257,6 +257,104 @@ def _gen_case(rng):
             dropped.add(e[1])
     return {'kind': 'sched', 'nvars': nv, 'events': out, 'style': style}, ref.cyc
 
+# ------------------------------------------------------------------ round 5: term OBJECTS that the caller holds while bindings come and go
+#
+# A caller may build a term once and hand the same object to unify() again and again while the variables inside it are bound,
+# unbound again and bound to something else (a compiled clause does so with every term it builds before a choice point).  With
+# 'reuse' set the implementation side builds every compound (sub)term of the case only once (lib/terms.py: ImplTerms.reuse) - what
+# a term "is" may then never depend on what it dereferenced to at an earlier moment.  The model is unchanged: it has no object
+# identity, so the schedule means what it meant before.
+
+def _held_pool(rng, nv):
+    v = lambda: ['v', rng.randrange(nv)]
+    c = lambda: list(rng.choice(CONSTS))
+    inner = [['f', 'f', [v()]], ['f', 'g', [v(), c()]], ['f', 'g', [v(), v()]], terms.mklist([v(), c()]), terms.mklist([v()], v())]
+    rng.shuffle(inner)
+    inner = inner[:rng.choice([2, 3])]
+    outer = [['f', 'h', [rng.choice(inner), v()]], ['f', 'h', [rng.choice(inner), rng.choice(inner)]], ['f', 'f', [rng.choice(inner)]],
+             terms.mklist([rng.choice(inner), v()])]
+    rng.shuffle(outer)
+    return inner + outer[:rng.choice([1, 2])]
+
+def _ground_like(rng, t, nv, keep=0.3):
+    """t with (most of) its variables replaced by constants: something t unifies with once its variables are free or fit"""
+    if t[0] == 'v':
+        return t if rng.random() < keep else list(rng.choice(CONSTS))
+    if t[0] == 'f':
+        return ['f', t[1], [_ground_like(rng, a, nv, keep) for a in t[2]]]
+    return t
+
+def gen_held_case(rng):
+    for _ in range(4):
+        c, cyc = _gen_held_case(rng)
+        if not cyc:
+            break
+    return c
+
+def _gen_held_case(rng):
+    nv = rng.choice([2, 3, 3, 4])
+    pool = _held_pool(rng, nv)
+    ref = RefRun()
+    evs = []
+    n = [0]
+    def emit(e):
+        evs.append(e)
+        return ref.step(e)
+    def run(a, b):
+        """create + start; returns (index, yielded) or None when the case leaves the specified domain"""
+        i = n[0]; n[0] += 1
+        emit(['create', i, a, b])
+        y = emit(['next', i])
+        return None if y is None else (i, y)
+    alive = True
+    for _round in range(rng.choice([2, 3, 3, 4])):
+        opened = []
+        # bindings of this round: some variables get constants / small terms / aliases
+        for _ in range(rng.choice([0, 1, 1, 2])):
+            x = ['v', rng.randrange(nv)]
+            r = run(x, rng.choice([list(rng.choice(CONSTS)), list(rng.choice(CONSTS)), ['v', rng.randrange(nv)], ['f', 'f', [list(rng.choice(CONSTS))]]]))
+            if r is None:
+                alive = False; break
+            if r[1]:
+                opened.append(r[0])
+        if not alive:
+            break
+        # the held terms are used under these bindings
+        for _ in range(rng.choice([1, 2, 2, 3])):
+            t = rng.choice(pool)
+            q = rng.random()
+            other = rng.choice(pool) if q < 0.3 else _ground_like(rng, t, nv) if q < 0.85 else ['v', rng.randrange(nv)]
+            a, b = (t, other) if rng.random() < 0.6 else (other, t)
+            r = run(a, b)
+            if r is None:
+                alive = False; break
+            if r[1]:
+                if rng.random() < 0.7:
+                    emit([rng.choice(['close', 'close', 'drop', 'next']), r[0]])
+                else:
+                    opened.append(r[0])
+        if not alive:
+            break
+        # the round is taken down again (LIFO), wholly or in part
+        keep = rng.choice([0, 0, 0, 1]) if opened else 0
+        while len(opened) > keep:
+            emit([rng.choice(['close', 'close', 'drop', 'next']), opened.pop()])
+        if keep:
+            # what stays open is below everything the next rounds open; it is closed at the very end
+            pass
+    if alive:
+        while ref.stack:
+            emit([rng.choice(['close', 'drop', 'next']), ref.stack[-1][0]])
+    dropped = set()
+    out = []
+    for e in evs:
+        if e[1] in dropped:
+            continue
+        out.append(e)
+        if e[0] == 'drop':
+            dropped.add(e[1])
+    return {'kind': 'sched', 'nvars': nv, 'events': out, 'style': 'held', 'reuse': True}, ref.cyc
+
 def _small_pairs():
     X, Y, a = ['v', 0], ['v', 1], ['a', 'a']
     f = lambda *xs: ['f', 'f', list(xs)]
@@ -346,6 +444,7 @@ def impl(case):
     yp = E.YP()
     nv = case['nvars']
     T = pyconsts.make_impl_terms([yp], nv)
+    T.reuse = bool(case.get('reuse'))        # round 5: every compound (sub)term of the case is ONE engine object, used again and again
     slots = {}
     obs = []
     try:
